@@ -373,7 +373,9 @@ func (sc *scn) scenario() *qx.Scenario {
 			// brokers answered everything the client sent after Close was called
 			brokersFine := true
 			for _, e := range c.Journal {
-				if e.At >= closeStartAt && e.Answer != "ok" {
+				// any failure other than a rebalance signal makes the group give its membership up on its own
+				// (it tries to leave and forgets the member id), which the application cannot observe
+				if e.Answer != "ok" && e.Answer != "err:27" {
 					brokersFine = false
 				}
 			}
